@@ -44,6 +44,7 @@ def run(ctx):
     ctx.need_module(J2)
     ctx.need_module("optimism.material.Hardening")
     d1_traceless(ctx)
+    d1_degenerate_threshold(ctx)
     d1_layout(ctx)
     d2_bracket(ctx)
     d3_wiring(ctx)
@@ -120,6 +121,56 @@ def d1_traceless(ctx):
             ctx.decide(rule, ok and n == 10, sc, None, construct=f"{fname}[comparisons={pol}]:increment-segment-traceless",
                        detail=f"increment vector of length {n}; trace of its tensor segment is identically 0",
                        bad_detail=f"{fname}: tensor segment of the state increment has trace {tr.a!r} (length {n}): the plastic distortion would not stay volume preserving")
+
+
+def d1_degenerate_threshold(ctx):
+    """The flow direction falls back to a fixed dummy direction when |dev E|^2 <= c.  On a yielding step the trial Mises stress
+    2 mu dev(E):N must exceed the flow stress >= Y0; with the fallback direction it is at most 2 mu sqrt(c) |N_fallback|.  So the
+    fallback can only be taken while yielding if Y0/mu < 2 sqrt(c |N_fallback|^2): that bound must lie below every admissible
+    yield strain (assumption recorded: yield strength / shear modulus >= 1e-6)."""
+    rule = "D1/T7-degenerate-direction-unreachable-while-yielding"
+    from fractions import Fraction
+    import math
+    fd = ctx.need(f"{J2}:compute_flow_direction")
+    cfg = cfg_of(fd)
+    cmp_nodes = [n for n in cfg.nodes if n.kind == "stmt" and isinstance(n.ast, ast.Assign) and isinstance(n.ast.value, ast.Compare)
+                 and len(n.ast.value.ops) == 1 and isinstance(n.ast.value.ops[0], (ast.Gt, ast.GtE)) and const_value(n.ast.value.comparators[0]) is not None]
+    fb = [c for c in ast.walk(fd.node) if isinstance(c, ast.Assign) and isinstance(c.value, ast.BinOp) and isinstance(c.value.op, ast.Mult)
+          and any(isinstance(k, ast.Call) and (dotted(k.func) or "").split(".")[-1] == "array" for k in ast.walk(c.value))]
+    if len(cmp_nodes) != 1 or len(fb) != 1:
+        ctx.undecided(rule, fd, None, construct="threshold", detail=f"{len(cmp_nodes)} threshold comparisons, {len(fb)} literal fallback directions found")
+        return
+    n = cmp_nodes[0]
+    c = float(const_value(n.ast.value.comparators[0]))
+    from .common import expand
+    lhs = expand(cfg, n, n.ast.value.left)
+    is_sq = isinstance(lhs, ast.Call) and (dotted(lhs.func) or "").split(".")[-1] == "tensordot" and len(lhs.args) == 2 and same(lhs.args[0], src(lhs.args[1])) \
+        and "dev" in src(lhs.args[0])
+    # |N_fallback|^2 from the literal
+    from optilint.expr import feval
+    try:
+        I, _ = _interp(ctx, False)
+        N = I.call(I.module_value(ctx.need_module(J2), "compute_flow_direction"), [generic("e")], {})
+        nn = sum_d(x * x for x in N.data)
+        nn = float(te_const(nn))
+    except Exception as ex:
+        ctx.undecided(rule, fd, None, construct="threshold", detail=f"fallback direction not evaluated: {ex}")
+        return
+    bound = 2.0 * math.sqrt(c * nn)
+    ok = is_sq and bound <= 1e-6
+    ctx.decide(rule, ok, fd, n.ast, construct="fallback-needs-yield-strain-below-bound",
+               detail=f"fallback when |dev E|^2 <= {c:g}; reachable while yielding only if Y0/mu < {bound:.3g} (<= 1e-6)",
+               bad_detail=f"`{src(n.ast)}`: the dummy flow direction (|N|^2 = {nn:g}) is used when |dev E|^2 <= {c:g}; a step can yield there whenever "
+                          f"yield strength / shear modulus < {bound:.3g}, which includes admissible materials (>= 1e-6): the plastic flow then follows the dummy direction")
+    ctx.assume("admissible constants: yield strength / shear modulus >= 1e-6")
+
+
+def te_const(d):
+    from optilint.tensoreval import rat_const
+    c = rat_const(d.a)
+    if c is None:
+        raise ValueError("not constant")
+    return c
 
 
 def d1_layout(ctx):
@@ -430,6 +481,8 @@ def variants(repo):
     J = "optimism/material/J2Plastic.py"
     return [
         Variant("flow direction from full strain", J, sub_in_func("compute_flow_direction", "np.sqrt(3./2.)/np.sqrt(devElasticStrainNormSquared) * devElasticStrain", "np.sqrt(3./2.)/np.sqrt(devElasticStrainNormSquared) * elasticStrain"), "D1/T9-traceless-flow"),
+        Variant("degenerate-direction threshold 1e-8", J, sub_in_func("compute_flow_direction", "    isNonzero = devElasticStrainNormSquared > 1e-16", "    isNonzero = devElasticStrainNormSquared > 1e-8"), "D1/T7-degenerate-direction-unreachable-while-yielding"),
+        Variant("degenerate-direction threshold 1e-20 (equivalent)", J, sub_in_func("compute_flow_direction", "    isNonzero = devElasticStrainNormSquared > 1e-16", "    isNonzero = devElasticStrainNormSquared > 1e-20"), None),
         Variant("fallback direction with diagonal", J, sub("    dummyN = 0.5*np.array([[0.0, 1.0, 1.0],", "    dummyN = 0.5*np.array([[1.0, 1.0, 1.0],"), "D1/T9-traceless-flow"),
         Variant("increment adds eqps to diagonal", J, sub_in_func("update_state", "    DeltaPlasticStrain = DeltaEqps*N", "    DeltaPlasticStrain = DeltaEqps*(N + np.identity(3))"), "D1/T9-traceless-flow"),
         Variant("elastic branch wrong length", J, sub_in_func("compute_state_increment", "lambda e: np.zeros(NUM_STATE_VARS),", "lambda e: np.zeros(NUM_STATE_VARS-1),"), "D2/T2-bracket-roles"),
